@@ -11,6 +11,7 @@ CONSTANTS
   BlockSize = 8
   Pos <- MCPos
   TheRepo = "r1"
-  Contents <- MCExport
+  Contents <- MCContents
+  SpaceSel = "gen"
 INVARIANT Emit
 CHECK_DEADLOCK FALSE
